@@ -80,8 +80,8 @@ func main() {
 	var keys []string
 	for _, k := range w.specs.Order {
 		fs := w.specs.Funcs[k]
-		if fs.Kind != "func" {
-			continue
+		if fs.Kind != "func" || fs.Inline {
+			continue // inline contracts (closures with loop invariants) are verified where they are executed
 		}
 		if *fnFilter != "" && !strings.Contains(k, *fnFilter) {
 			continue
